@@ -205,9 +205,10 @@ fn source_line(file: &str, line: u32) -> String {
 }
 
 pub fn normalise_msg(m: &str) -> String {
+    // digits -> N, lists of numbers -> [..], bounded length: the same call site yields one key
     let mut out = String::new();
     let mut in_num = false;
-    for ch in m.chars().take(200) {
+    for ch in m.chars().take(300) {
         if ch.is_ascii_digit() {
             if !in_num {
                 out.push('N');
@@ -218,7 +219,26 @@ pub fn normalise_msg(m: &str) -> String {
             out.push(ch);
         }
     }
-    out
+    // collapse "[N, N, N]" and "[]"
+    let mut res = String::new();
+    let b: Vec<char> = out.chars().collect();
+    let mut i = 0;
+    while i < b.len() {
+        if b[i] == '[' {
+            let mut j = i + 1;
+            while j < b.len() && (b[j] == 'N' || b[j] == ',' || b[j] == ' ') {
+                j += 1;
+            }
+            if j < b.len() && b[j] == ']' {
+                res.push_str("[..]");
+                i = j + 1;
+                continue;
+            }
+        }
+        res.push(b[i]);
+        i += 1;
+    }
+    res.chars().take(120).collect()
 }
 
 // ------------------------------------------------------------------------------------------
@@ -733,6 +753,12 @@ pub fn run<P: Prop>(p: &P, tier: Tier) -> i32 {
     } else {
         if violations.len() > 3 {
             out!("  ({} failing cases; showing 3)", violations.len());
+            let mut keys: Vec<&str> = violations.iter().flat_map(|(_, f)| f.iter().map(|x| x.key.as_str())).collect();
+            keys.sort();
+            keys.dedup();
+            for k in keys.iter().take(30) {
+                out!("  distinct failure key: {}", k);
+            }
         }
         for (path, fails) in violations.iter().take(3) {
             for f in fails.iter().take(3) {
